@@ -317,6 +317,8 @@ func init() {
 			RunSpec{Name: "fees-panics", Sc: scFees(paramSet("0.1", "0.001"), true, 6+d, 3, 3), Oracles: o, DetCheck: true},
 			RunSpec{Name: "bind-panics", Sc: scBind(defaultParams(), bindOpsFull(), []Template{tSlash2}, []string{"bad"}, 6+d, 4, 3), Oracles: o, DetCheck: true},
 			RunSpec{Name: "names-panics", Sc: scNames(defaultParams(), 6+d, 3, 4), Oracles: o, DetCheck: true},
+			RunSpec{Name: "genesis-import-orders", Sc: withFunds(scLife(paramSet("0.1", "0.001"), []Template{tRep2, tInf}, AlphaOpts{CtxOps: []string{"pause"}, SetW: []string{"O1:W1", "O2:W1"}}, 4+d, 2, 4), 40, 5),
+				Oracles: o, Post: mapGenesisPost, Conform: -1},
 		)
 		return runs
 	}, Pure: inputGrid, Notes: []string{
